@@ -379,8 +379,16 @@ pub async fn one_execution(seed: u64, stats: &mut BTreeMap<String, u64>, max_ima
         // ---- continued operation converges: real sync with the origins, both directions
         let mut converged = false;
         let mut triggers_after_restart = 0u64;
+        // F15 is transient on the serving side: a version holds two changes with one seq only
+        // until a later version takes the synthesized sentinel over, so it is looked for at
+        // every session, not only at the end
+        let mut dup_seen: BTreeSet<(String, i64)> = BTreeSet::new();
         for _round in 0..5 {
             for o in 0..n_orig {
+                {
+                    let c = ex.nodes[o].ro().map_err(|e| e.to_string())?;
+                    dup_seen.extend(super::versions_with_duplicate_seq(&c).map_err(|e| e.to_string())?);
+                }
                 let st = generate_sync(&bookie, agent.actor_id()).await;
                 let peer = (ex.nodes[o].actor(), ex.nodes[o].gossip_addr);
                 let mut ok = false;
@@ -467,15 +475,38 @@ pub async fn one_execution(seed: u64, stats: &mut BTreeMap<String, u64>, max_ima
             // known root cause F15? (versions with changes sharing a seq)
             let rc = agent.pool().client_dedicated_readonly().map_err(|e| e.to_string())?;
             let mut dup = super::versions_with_duplicate_seq(&rc).map_err(|e| e.to_string())?;
-            for o in 0..n_orig {
+            // every node of the execution, the live victim included: it relayed its versions
+            // to the origins during the history (F15 loses the change at the relay)
+            for o in 0..ex.nodes.len() {
                 let c = ex.nodes[o].ro().map_err(|e| e.to_string())?;
                 dup.extend(super::versions_with_duplicate_seq(&c).map_err(|e| e.to_string())?);
             }
+            dup.extend(dup_seen.iter().cloned());
             let sig = if dup.is_empty() {
                 "convergence/restarted-node-does-not-converge-with-reference-merge"
             } else {
                 "convergence/change-sharing-a-seq-with-resurrection-sentinel-not-relayed"
             };
+            if std::env::var_os("VH_C06_DEBUG").is_some() {
+                let q = r#"SELECT "table", hex(pk), cid, quote(val), col_version, db_version, seq, hex(site_id), cl FROM crsql_changes WHERE "table" = 't1' ORDER BY 2, 3"#;
+                let dump = |name: &str, c: &rusqlite::Connection| {
+                    if let Ok(mut st) = c.prepare(q) {
+                        let rows: Vec<String> = st
+                            .query_map([], |r| Ok(format!("{} {} {} {} cv{} dbv{} seq{} site{} cl{}", r.get::<_, String>(0)?, r.get::<_, String>(1)?, r.get::<_, String>(2)?, r.get::<_, String>(3)?.chars().take(24).collect::<String>(), r.get::<_, i64>(4)?, r.get::<_, i64>(5)?, r.get::<_, i64>(6)?, &r.get::<_, String>(7)?[..6], r.get::<_, i64>(8)?)))
+                            .map(|it| it.filter_map(Result::ok).collect())
+                            .unwrap_or_default();
+                        for r in rows {
+                            eprintln!("DBG {name} {r}");
+                        }
+                    }
+                };
+                dump("restarted", &rc);
+                for o in 0..n_orig {
+                    if let Ok(c) = ex.nodes[o].ro() {
+                        dump(&format!("origin{o}"), &c);
+                    }
+                }
+            }
             let final_state = generate_sync(&bookie, agent.actor_id()).await;
             let (rt, _) = (tables_digest(&rc, &TABLES).map_err(|e| e.to_string())?, ());
             let want = ref_by_own.get(&own_head.min(post.own_acked)).cloned();
